@@ -790,3 +790,30 @@ def run(idx, rep, tier):
     share(k, 'C02.R14', 'the algorithms put into use are the negotiated ones (= C03.R5): _choose_alg walks the client list in both roles, so a server never encrypts, MACs or compresses with its own first choice', _c03r5, keep=lambda key: '_choose_alg' in key)
     from .c01 import r3 as _c01r3
     share(k, 'C02.R15', 'sequence numbers count every packet modulo 2^32 (= C01.R3): both counters advance by (n + 1) & 0xffffffff', _c01r3, keep=lambda key: 'seq' in key)
+    from .c01 import etm_mac_covers_length
+    rep.rule('C02.R16', 'ETM packets have the layout every other implementation checks (= C01.R16): tag over packet_length || ciphertext')
+    etm_mac_covers_length(k, 'C02.R16')
+    rep.rule('C02.R17', 'SSHConnection._recv_packet: the completion callback '
+             'of an asynchronously handled packet is told is_async=True as '
+             'a constant - whether buffered input must be parsed again is '
+             'decided when the handler finishes (_finish_recv_packet looks '
+             'at _inpbuf then), not from the buffer as it was when the '
+             'handler started')
+    _frp = k.func(CONN + '_recv_packet')
+    _n17 = 0
+    for _c in ast.walk(_frp.node):
+        if isinstance(_c, ast.Call) and any(
+                dotted(a) == 'self._finish_recv_packet' for a in _c.args):
+            for _kw in _c.keywords:
+                if _kw.arg == 'is_async':
+                    _n17 += 1
+                    rep.check(isinstance(_kw.value, ast.Constant) and
+                              _kw.value.value is True, 'C02.R17',
+                              key(_frp, 'async completion re-runs the parser'),
+                              'is_async=True',
+                              f'`is_async={norm(_kw.value)}` is evaluated '
+                              'when the handler starts: a packet that '
+                              'arrives in its own chunk while the KEXINIT '
+                              'coroutine is pending is buffered and never '
+                              'parsed - the re-key deadlocks', _frp.loc(_c))
+    rep.floor('C02.R17', 'async completion callbacks', _n17, 1)
